@@ -190,6 +190,24 @@ def mutate(rng, s: str) -> str:
     return s + rng.choice(ALPHABET_OPS + ["sgn", "sgn(", "1.2.3", "#"])
 
 
+def long_flat(rng) -> str:
+    """Flat chains of 150-650 terms: nesting depth 0, but deep trees / long token queues."""
+    n = rng.choice([150, 300, 450, 650])
+    op = rng.choice([" + ", " - ", "+", " * ", "*", " / "])
+    if "*" in op or "/" in op:
+        n = min(n, 450)          # the right-recursive product parse itself nests one frame per factor
+    terms = [rng.choice(["x", "y", "2x", "3", "x^2", "4y", "z"]) for _ in range(n)]
+    s = op.join(terms)
+    r = rng.random()
+    if r < 0.15:
+        return s + " ="
+    if r < 0.25:
+        return s + " = 1"
+    if r < 0.32:
+        return s + rng.choice([" +", " )", " ^", " 7 7"])
+    return s
+
+
 def confusables(rng, s: str):
     """Texts that a text-keyed cache could confuse with s."""
     out = []
